@@ -16,6 +16,9 @@ type Cond struct {
 	Var  string
 	K    int
 	L, R *Cond
+	// Lang: the condition names its OWN expression language (the `language` attribute of the formal expression): "expr" /
+	// "xpath"; "" = the language of the definitions
+	Lang string
 }
 
 // ref: how a condition names its operand: an instance variable by its name, a DATA OBJECT (name starting with "@")
@@ -382,8 +385,15 @@ func (g *Graph) container(sb *strings.Builder, parent string) {
 			if g.XPath {
 				text = f.Cond.XPathExpr()
 			}
-			fmt.Fprintf(sb, "><bpmn:conditionExpression xsi:type=\"bpmn:tFormalExpression\">%s</bpmn:conditionExpression></bpmn:sequenceFlow>\n",
-				xmlEsc(text))
+			lang := ""
+			switch f.Cond.Lang {
+			case "expr":
+				text, lang = f.Cond.Expr(), ` language="https://github.com/expr-lang/expr"`
+			case "xpath":
+				text, lang = f.Cond.XPathExpr(), ` language="http://www.w3.org/1999/XPath"`
+			}
+			fmt.Fprintf(sb, "><bpmn:conditionExpression xsi:type=\"bpmn:tFormalExpression\"%s>%s</bpmn:conditionExpression></bpmn:sequenceFlow>\n",
+				lang, xmlEsc(text))
 		}
 	}
 }
